@@ -14,7 +14,7 @@ Acts(cls, k) ==
   CASE cls \in {"General", "Proportional"} -> { [cls |-> cls, rules |-> 1, threshold |-> Zero, comparator |-> ">"] }
     [] cls \in {"First", "Last"} -> { [cls |-> cls, rules |-> n, threshold |-> t, comparator |-> ">"] : n \in 0..(k + 1), t \in Thresholds }
     [] cls \in {"Highest", "Lowest"} -> { [cls |-> cls, rules |-> n, threshold |-> Zero, comparator |-> ">"] : n \in 0..(k + 1) }
-    [] cls = "Threshold" -> { [cls |-> cls, rules |-> 1, threshold |-> t, comparator |-> c] : t \in Thresholds, c \in Comparators }
+    [] cls = "Threshold" -> { [cls |-> cls, rules |-> 1, threshold |-> t, comparator |-> c] : t \in Thresholds \cup {NaN, PInf}, c \in Comparators }   \* legal, if unusual, thresholds: every comparison with NaN is false except !=
 \* enabled / loaded patterns: everything on; one rule disabled; one rule unloaded
 Patterns(k) == { [en |-> [i \in 1..k |-> TRUE], ld |-> [i \in 1..k |-> TRUE]] }
           \cup { [en |-> [i \in 1..k |-> i # j], ld |-> [i \in 1..k |-> TRUE]] : j \in 1..k }
